@@ -160,6 +160,20 @@ def mk_order(order, shape):
         return order
 
 
+def to_object_array(value, shape):
+    """Object array with exactly len(shape) dimensions holding the items of
+    the nested sequence `value` (np.asarray would also unpack the items)."""
+    if hasattr(value, "shape") and len(value.shape) == len(shape):
+        return value
+    out = np.empty(shape, dtype=object)
+    for idx in np.ndindex(*shape):
+        item = value
+        for ii in idx:
+            item = item[ii]
+        out[idx] = item
+    return out
+
+
 def get_offset(idx, strides):
     return sum(ii * ss for ii, ss in zip(idx, strides))
 
@@ -396,6 +410,8 @@ class Array(metaclass=MetaArray):
                 # args must be an array of correct dimensions
                 offsets = np.empty(shape, dtype="int64")
                 offset += items * 8
+                if not isinstance(value, cls):
+                    value = to_object_array(value, shape)
                 for idx in iter_index(shape, order):
                     extra[idx] = cls._itemtype._inspect_args(value[idx])
                     offsets[idx] = offset
@@ -506,8 +522,8 @@ class Array(metaclass=MetaArray):
                             info.extra.get(idx),
                         )
         else:  # there is a value for initialization
-            if not hasattr(value, "shape"):  # not nplike
-                value = np.asarray(value, dtype=object)
+            if not hasattr(value, "shape") and not isinstance(value, cls):
+                value = to_object_array(value, info.shape)
             if cls._is_static_type:
                 ioffset = offset + cls._data_offset
                 for idx in iter_index(info.shape, cls._order):
